@@ -315,8 +315,21 @@ func (s *JavaFullListener) EnterForControl(ctx *parser.ForControlContext) {
 	localVarScopes = append(localVarScopes, saved)
 }
 
+// The body of a switch statement is one block: a variable declared in one of its groups is
+// visible until the closing brace of the switch, not beyond it.
+func (s *JavaFullListener) EnterStatement(ctx *parser.StatementContext) {
+	if ctx.SWITCH() == nil {
+		return
+	}
+	saved := make(map[string]string, len(localVars))
+	for name, typ := range localVars {
+		saved[name] = typ
+	}
+	localVarScopes = append(localVarScopes, saved)
+}
+
 func (s *JavaFullListener) ExitStatement(ctx *parser.StatementContext) {
-	if (ctx.ResourceSpecification() == nil && ctx.ForControl() == nil) || len(localVarScopes) == 0 {
+	if (ctx.ResourceSpecification() == nil && ctx.ForControl() == nil && ctx.SWITCH() == nil) || len(localVarScopes) == 0 {
 		return
 	}
 	localVars = localVarScopes[len(localVarScopes)-1]
